@@ -43,7 +43,7 @@ theorem accept_iff_wellformed (L : Lists) (ss : List Schedule) :
     validateSchedules tables L ss = .ok () ↔ ∀ s ∈ ss, WellFormed L s := by
   exact accept_iff_wellformed' L ss
 
-example : validateSchedules tables ⟨[none], [none, some 2], [], [some 3]⟩
+example : validateSchedules tables ⟨[none], [none, some [2]], [], [some [3]]⟩
     [.items [Item.mk "state" 0, Item.mk "mprocess" 0, Item.mk "povm" 1]] = .ok () := by decide
 
 /-- **C20.b `reject_item_or_order`** (which of the two exceptions, and where) — for EVERY kind of schedule the model knows:
@@ -378,16 +378,19 @@ theorem unsupported_string_rejected (c : Cls) (nS nP : Nat) (s : String) (h : s 
 
 /-- **C20.f `accepted_executable`** — an accepted schedule that ends in its only POVM and refers to no `None`
 placeholder is executed by `calc_prob_dist` (index check, look-ups, composition from the state outwards, `.ps`) and
-yields a distribution whose outcome shape is (outcome counts of its measurement processes in order, then of the POVM).
+yields a distribution whose outcome shape is exactly: the outcome shapes of its measurement processes in order followed by the
+POVM's local outcomes (`nums_local_outcomes`) — and the FLAT `[∏ local outcomes]` when there is no measurement process
+(`MultinomialDistribution(prob, prob.shape)` in `Povm ∘ State`). Shapes may be multi-dimensional (tensor-product objects).
 What is proved is executability and the *shape* (type-level: the dispatch of `_compose_qoperations`, hand-modelled in
 `compose`); that the numbers are non-negative, sum to one and follow the Born rule is established by the oracle on the
 real code only (harness c20.py, incl. zero-probability branches and tensor-product objects). -/
-theorem accepted_executable (st : ExpState) (i : Nat) (ps : List (String × Int)) (outc : String × Int → Nat)
+theorem accepted_executable (st : ExpState) (i : Nat) (ps : List (String × Int)) (outc : String × Int → List Nat)
     (hi : st.schedules[i]? = some (.items (ps.map fun p => Item.mk p.1 p.2)))
     (hr : ∀ p ∈ ps, InRange st.lists p) (ho : OrderRule (ps.map (·.1)))
     (hlast : (ps.map (·.1)).getLast? = some "povm")
     (hobj : ∀ p ∈ ps, objOf st.lists p = some (some (outc p))) :
-    calcProbDist st (.int i) = .ok ((ps.filter fun p => p.1 = "mprocess" ∨ p.1 = "povm").map outc) := by
+    calcProbDist st (.int i) = .ok (shapeOfRun ((ps.filter fun p => p.1 = "mprocess").map outc)
+      ((ps.filter fun p => p.1 = "povm").map outc).flatten) := by
   have hlen : i < st.schedules.length := by
     have := List.getElem?_eq_some_iff.1 hi; exact this.1
   match ps, hi, hr, ho, hlast, hobj with
@@ -428,17 +431,32 @@ theorem accepted_executable (st : ExpState) (i : Nat) (ps : List (String × Int)
         rcases hmid q hq with h | h
         · left; simp [qtOf, h]
         · right; exact ⟨outc q, by simp [qtOf, h]⟩)
-      (outc pv) .state [] rfl
+      (outc pv) none
     simp only [calcProbDist, if_neg hidx, htn, hi, htargets]
     simp only [List.map_cons, List.map_append, List.map_nil, hqa, hqp]
     have hnotempty : (List.map (fun p => qtOf p.fst (outc p)) mid ++ [QT.povm (outc pv)]).isEmpty = false := by
       cases mid <;> simp
-    simp only [hnotempty, Bool.false_eq_true, if_false, hcomp, List.nil_append, filterMap_mproc outc mid hmid]
-    simp [List.filter_cons, ha, hpv, List.filter_append]
+    have hcomp' : composeFrom QT.state (List.map (fun p => qtOf p.fst (outc p)) mid ++ [QT.povm (outc pv)]) =
+        .ok (.dist (shapeOfRun ((mid.filter fun p => p.1 = "mprocess").map outc) (outc pv))) := by
+      have := hcomp
+      rw [finalShape_foldl, filterMap_mproc outc mid hmid] at this
+      simpa [tempOf] using this
+    simp only [hnotempty, Bool.false_eq_true, if_false, hcomp']
+    have hf1 : (List.filter (fun p => decide (p.1 = "mprocess")) (a :: (mid ++ [pv]))) =
+        List.filter (fun p => decide (p.1 = "mprocess")) mid := by
+      simp [List.filter_cons, List.filter_append, ha, hpv]
+    have hf2 : (List.filter (fun p => decide (p.1 = "povm")) (a :: (mid ++ [pv]))) = [pv] := by
+      have hm : List.filter (fun p => decide (p.1 = "povm")) mid = [] := by
+        rw [List.filter_eq_nil_iff]
+        intro q hq
+        rcases hmid q hq with h | h <;> simp [h]
+      simp [List.filter_cons, List.filter_append, ha, hpv, hm]
+    rw [hf1, hf2]
+    simp
 
 /-- **C20.f `none_placeholder_rejected`** — `calc_prob_dist` raises the "is None" ValueError at the first item (in
 schedule order) that refers to a `None` placeholder. -/
-theorem none_placeholder_rejected (st : ExpState) (i : Nat) (outc : String × Int → Nat)
+theorem none_placeholder_rejected (st : ExpState) (i : Nat) (outc : String × Int → List Nat)
     (pre : List (String × Int)) (p : String × Int) (post : List (String × Int))
     (hi : st.schedules[i]? = some (.items ((pre ++ p :: post).map fun p => Item.mk p.1 p.2)))
     (hpre : ∀ q ∈ pre, objOf st.lists q = some (some (outc q))) (hp : objOf st.lists p = some none) :
@@ -450,10 +468,10 @@ theorem none_placeholder_rejected (st : ExpState) (i : Nat) (outc : String × In
   have := lookupTargets_none st.lists outc pre p post 0 hpre hp
   simp only [calcProbDist, if_neg hidx, htn, hi, this, Nat.zero_add]
 
-example : calcProbDist ⟨⟨[some 1, none], [some 2, some 3], [some 1], [some 2, some 3]⟩,
+example : calcProbDist ⟨⟨[some [1], none], [some [2], some [3]], [some [1]], [some [2], some [3]]⟩,
     [.items [Item.mk "state" 0, Item.mk "mprocess" 0, Item.mk "mprocess" 1, Item.mk "gate" 0, Item.mk "povm" 1]]⟩
     (.int 0) = .ok [2, 3, 3] := by decide
-example : calcProbDist ⟨⟨[some 1, none], [some 2], [], []⟩, [.items [Item.mk "state" 1, Item.mk "povm" 0]]⟩
+example : calcProbDist ⟨⟨[some [1], none], [some [2]], [], []⟩, [.items [Item.mk "state" 1, Item.mk "povm" 0]]⟩
     (.int 0) = .error (.isNone 0) := by decide
 
 
@@ -515,16 +533,23 @@ theorem accepted_lookup_total (L : Lists) (s : Schedule) (h : WellFormed L s) :
   · exact Or.inl ⟨ts, g1, by simp [g2]⟩
   · exact Or.inr ⟨k, g1, by simpa using g3⟩
 
-example : validateSchedules tables ⟨[none, some 1], [some 2], [some 1], []⟩
+example : validateSchedules tables ⟨[none, some [1]], [some [2]], [some [1]], []⟩
     [.items [Item.mk "state" 1, Item.mk "gate" 0, Item.mk "povm" 0]] = .ok () := by decide
 
 
+/-- tensor-product objects (multi-dimensional outcome shapes): the flat shape without a measurement process, the concatenated
+local shapes with one -/
+example : calcProbDist ⟨⟨[some []], [some [2, 3]], [], [some [2, 3]]⟩, [.items [Item.mk "state" 0, Item.mk "povm" 0]]⟩ (.int 0) =
+    .ok [6] := by decide
+example : calcProbDist ⟨⟨[some []], [some [2, 3]], [some []], [some [2, 3]]⟩,
+    [.items [Item.mk "state" 0, Item.mk "mprocess" 0, Item.mk "gate" 0, Item.mk "povm" 0]]⟩ (.int 0) = .ok [2, 3, 2, 3] := by decide
+
 /-! ## instantiations of `accepted_executable` / `none_placeholder_rejected` (hypotheses jointly satisfiable, from the peer review) -/
 
-def L0 : Lists := ⟨[some 1, none], [some 2, some 3], [some 1], [some 2, some 3]⟩
+def L0 : Lists := ⟨[some [1], none], [some [2], some [3]], [some [1]], [some [2], some [3]]⟩
 def ps0 : List (String × Int) := [("state", 0), ("mprocess", 0), ("mprocess", 1), ("gate", 0), ("povm", 1)]
 def st0 : ExpState := ⟨L0, [.items (ps0.map fun p => Item.mk p.1 p.2)]⟩
-def outc0 (p : String × Int) : Nat := match objOf L0 p with | some (some m) => m | _ => 0
+def outc0 (p : String × Int) : List Nat := match objOf L0 p with | some (some m) => m | _ => []
 
 -- accepted_executable: all five hypotheses jointly satisfiable, conclusion is informative
 example : calcProbDist st0 (.int 0) = .ok [2, 3, 3] := by
@@ -532,7 +557,7 @@ example : calcProbDist st0 (.int 0) = .ok [2, 3, 3] := by
     (by intro p hp; simp [ps0] at hp; rcases hp with rfl | rfl | rfl | rfl | rfl <;> simp [InRange, st0, L0])
     (by simp [OrderRule, ps0]) (by simp [ps0])
     (by intro p hp; simp [ps0] at hp; rcases hp with rfl | rfl | rfl | rfl | rfl <;> decide)
-  simpa [ps0, outc0, objOf, L0, pyIndex, Lists.get?] using h
+  simpa [ps0, outc0, objOf, L0, pyIndex, Lists.get?, shapeOfRun] using h
 
 -- none_placeholder_rejected instantiation
 def ps1pre : List (String × Int) := [("state", 0)]
@@ -544,8 +569,8 @@ example : calcProbDist st1 (.int 0) = .error (.isNone 1) :=
 
 
 /-- `reachable_wellformed` through `construct` and a setter history (one failing, one succeeding call) -/
-example : ∀ s ∈ (runOps tables st0 [.setList .povm [], .setList .gate [some 1, none]]).2.schedules,
-    WellFormed (runOps tables st0 [.setList .povm [], .setList .gate [some 1, none]]).2.lists s :=
+example : ∀ s ∈ (runOps tables st0 [.setList .povm [], .setList .gate [some [1], none]]).2.schedules,
+    WellFormed (runOps tables st0 [.setList .povm [], .setList .gate [some [1], none]]).2.lists s :=
   reachable_wellformed L0 st0.schedules st0 (by decide) _
 
 end QM.C20
